@@ -6168,7 +6168,7 @@ class SSHServerConnection(SSHConnection):
 
         allowed_addresses = cast(Sequence[IPNetwork],
                                  cert.options.get('source-address'))
-        if allowed_addresses:
+        if allowed_addresses is not None:
             ip = ip_address(self._peer_addr)
             if not any(ip in network for network in allowed_addresses):
                 return None
